@@ -121,8 +121,10 @@ def classify(ev):
             x = json.loads(exp)
             diff = [k for k in ("created", "key", "rev", "hasp", "pid", "pc") if (short(ev[k]) if k == "key" else ev[k]) != x[k]]
             names = {"created": "created", "key": "key bytes", "rev": "revoked flag", "hasp": "parent meta presence", "pid": "parent id", "pc": "parent created"}
-            if diff == ["created"] or (e == "latest" and "created" in diff):
-                return "wrong record returned (created %s instead of %s)" % (ev["created"], x["created"])
+            if e == "latest" and "created" in diff:
+                return "wrong record returned (not the greatest created)" if ev["created"] < x["created"] else "wrong record returned (created greater than any stored)"
+            if "created" in diff:
+                return "wrong record returned (different created)"
             return "record fields not intact: " + ", ".join(names[k] for k in diff)
         except Exception:
             return "returned record differs"
@@ -158,7 +160,7 @@ def findings_of(run, rej, disagree, counts=None):
             "kind": kind,
             "detail": "%s: backend %s, %s of run %s: %s; observed %s, Metastore.tla demands %s; calls of the run: %s%s; driver-side verbatim disagreements in this round: %s" % (
                 x["why"], be, ("call %d" % ncall) if ev.get("e") != "final" else "final read-back", x["run"],
-                json.dumps({k: (short(v) if k == "key" else v) for k, v in ev.items() if k in ("e", "id", "c", "key", "rev", "hasp", "pid", "pc")}) if ev.get("e") != "final"
+                json.dumps({k: (short(v) if k == "key" else v) for k, v in ev.items() if k in (("e", "id", "c", "key", "rev", "hasp", "pid", "pc") if ev.get("e") == "store" else ("e", "id", "c"))}) if ev.get("e") != "final"
                 else json.dumps([{k: (short(v) if k == "key" else v) for k, v in r.items() if k != "errs" or v} for r in ev.get("loads", []) + ev.get("latests", []) if not r.get("agree", True)] or ev)[:1200],
                 obs_of(ev) if ev.get("e") != "final" else "(the read-backs listed)", ev.get("exp", "the primary table's content"),
                 " ".join(calls[:ncall][-8:]) if ev.get("e") != "final" else " ".join(calls[-8:]), more, json.dumps(disagree)),
@@ -189,10 +191,10 @@ def validate_round(run, trace, cst, dis, label):
             good.append(rid)
             continue
         rs = evs[0][1]
-        key = (rs.get("backend", "?") + ("/" + rs["config"] if rs.get("config") else ""), bad.get("e"), classify(bad))
-        counts[key] = counts.get(key, 0) + 1
-        groups.setdefault(key, rid)
-    reps = [groups[k] for k in sorted(groups)][:10]
+        be, cls = rs.get("backend", "?") + ("/" + rs["config"] if rs.get("config") else ""), classify(bad)
+        counts[(be, bad.get("e"), cls)] = counts.get((be, bad.get("e"), cls), 0) + 1
+        groups.setdefault((be, bad.get("e"), cls.split(":")[0]), rid)
+    reps = [groups[k] for k in sorted(groups)][:8]
     with open(trace, "w") as f:
         for rid in good:
             f.writelines(l for l, _ in runs[rid])
